@@ -253,6 +253,10 @@ class Parser:
                 # `for x in arr.iter_mut() { … *x = e … }`: the loop over the indices; `*x = e` writes element `i`
                 b = self.block()
                 return ("for", var, ("int", 0, None), ("arrlen", it[1]), False, b, ("itermut", it[1])), False
+            if it[0] != "range" and not rev and it[0] in ("mcall", "call", "path"):
+                # `for pat in <iterator expression>`: allowed when the expression is a list-modelled iterator (checked at emission)
+                b = self.block()
+                return ("for", var if var is not None else var_pat, ("int", 0, None), ("arrlen", it), False, b, ("listiter", it)), False
             if it[0] != "range":
                 raise Unsupported("`for` over anything but a range `a..b`, `(a..b).rev()`, `array.iter()` or `x.by_ref()`")
             if var is None:
@@ -448,6 +452,35 @@ class Parser:
                 if some_arm is None or none_arm is None:
                     raise Unsupported("match on an Option without both arms")
                 return ("iflet", pvar, scrut, some_arm, none_arm)
+            if self.peek()[0] == "id" and self.peek(1)[1] == "if":
+                # `match x { x if c1 => a, x if c2 => b, _ => c }` (every binder is the scrutinee's own name): an if / else-if chain
+                if not (scrut[0] == "path" and len(scrut[1]) == 1):
+                    raise Unsupported("guarded match on a non-variable")
+                chain = []
+                default = None
+                while not self.at("}"):
+                    nm = self.eat()[1]
+                    if nm == "_":
+                        self.eat("=>")
+                        default = self.block() if self.at("{") else ("block", [], self.expr())
+                    else:
+                        if nm != scrut[1][0]:
+                            raise Unsupported("guarded match arm binding a new name")
+                        self.eat("if")
+                        g = self.expr(nostruct=True)
+                        self.eat("=>")
+                        chain.append((g, self.block() if self.at("{") else ("block", [], self.expr())))
+                    if self.at(","):
+                        self.eat()
+                self.eat("}")
+                if default is None:
+                    raise Unsupported("guarded match without a `_` arm")
+                if default[2] == ("tuple", []):
+                    default = ("block", default[1], None)
+                res = default
+                for g, b in reversed(chain):
+                    res = ("block", [], ("if", g, b, res))
+                return res[2]
             while not self.at("}"):
                 pk, pv = self.eat()
                 if pv not in ("true", "false"):
@@ -874,8 +907,8 @@ class Emitter:
                 if cent and cent.get("load"):
                     return self.expr(e[1], pre)                        # `?` on an io::Result: errors are outcomes already
             v, ty = self.expr(e[1], pre)
-            if self.cfg.get("reader") and not (ty and ty[0] == "O"):
-                return v, ty
+            if (self.cfg.get("reader") or self.cfg.get("err_as_fault")) and not (ty and ty[0] == "O"):
+                return v, ty                                           # `Err(e)?`: the callee's `Err` is the outcome `err` already
             if not (ty and ty[0] == "O"):
                 raise Unsupported("`?` on a non-Option")
             t = self.fresh()
@@ -1035,7 +1068,16 @@ class Emitter:
                 argtys = rent.get("args")
                 vals = [self.expr(a, pre, argtys[i] if argtys else None)[0] for i, a in enumerate(rargs)]
                 t = self.fresh()
-                pre.append("let %s ← unwrapRes (%s)" % (t, rent["lean"].format(*vals)))
+                code = rent["lean"].format(*vals, self=self.self_value() if self.selfmut else (self.cfg["self"]["var"] if self.cfg.get("self") else ""))
+                pre.append("let %s ← unwrapRes (%s)" % (t, code))
+                if rent.get("mutself"):
+                    # `self.f(..).unwrap()` on a `&mut self` method returning `Result<(), _>`: the new state, or the unwrap panic
+                    if rent["ret"] != UNIT:
+                        raise Unsupported("unwrap of a valued &mut self method")
+                    sf = self.cfg["self"]
+                    for f in sf["order"]:
+                        pre.append("let self_%s := %s.%s" % (f, t, sf["fields"][f][0]))
+                    return "()", UNIT
                 return t, rent["ret"]
         # methods of primitive values
         try_key = None
@@ -1875,8 +1917,11 @@ class Emitter:
         assigns; the iteration bound is the length of the range plus one"""
         _, var, lo, hi, rev, body, arr = st
         itermut = None
+        listiter = False
         if arr is not None and arr[0] == "itermut":
             itermut, arr = arr[1], arr[1]
+        if arr is not None and arr[0] == "listiter":
+            listiter, arr = True, arr[1]
         pre = []
         a, _ = self.expr(lo, pre, U)
         if arr is not None:
@@ -1884,7 +1929,14 @@ class Emitter:
                 arrv, arrt = (self.self_value() if self.selfmut else self.cfg["self"]["var"]), ("N", self.cfg["self"]["rust"])
             else:
                 arrv, arrt = self.expr(arr, pre, None)
-            if arrt in (("N", "SamplePairs"), ("N", "BvArray")):
+            if listiter:
+                if arrt not in (("N", "ListIter"), ("N", "PairListIter")):
+                    raise Unsupported("`for` over an iterator expression of type %r" % (arrt,))
+                t_ = self.fresh()
+                pre.append("let %s := %s" % (t_, arrv))               # the iterator is evaluated once, before the loop
+                arrv = t_
+                b = "%s.length" % arrv
+            elif arrt in (("N", "SamplePairs"), ("N", "BvArray")):
                 b = "%s.size" % arrv
             elif arrt == ("N", "IntVector"):
                 # `for x in v.iter()` over an IntVector: `AccessIter` yields `v.get(i)` for `i` in `0..v.len()`
@@ -1910,7 +1962,14 @@ class Emitter:
         if not rev:
             nxt = "(" + ", ".join(["%s + 1" % cnt] + vs) + ")" if vs else "(%s + 1)" % cnt
             out.append(ind + "    if (decide (%s < for_hi%d)) then do" % (cnt, n))
-            if arr is not None and arrt == ("N", "SamplePairs"):
+            if arr is not None and arrt == ("N", "PairListIter"):
+                if isinstance(var, tuple):
+                    self.bind_pat(var, "(%s.getD %s (0, 0))" % (arrv, cnt), ("T", [U, U]), out, ind + "      ")
+                else:
+                    out.append(ind + "      let %s := %s.getD %s (0, 0)" % (lname(var), arrv, cnt))
+            elif arr is not None and arrt == ("N", "ListIter"):
+                out.append(ind + "      let %s := %s.getD %s 0" % (lname(var), arrv, cnt))
+            elif arr is not None and arrt == ("N", "SamplePairs"):
                 if isinstance(var, tuple):
                     self.bind_pat(var, "(%s.getD %s (0, 0))" % (arrv, cnt), ("T", [U, U]), out, ind + "      ")
                 else:
@@ -1930,7 +1989,7 @@ class Emitter:
         if not isinstance(var, tuple):
             vty = U
             if arr is not None:
-                vty = ("T", [U, U]) if arrt == ("N", "SamplePairs") else (("N", "BitVector") if arrt == ("N", "BvArray") else W)
+                vty = ("T", [U, U]) if arrt in (("N", "SamplePairs"), ("N", "PairListIter")) else (("N", "BitVector") if arrt == ("N", "BvArray") else (U if arrt == ("N", "ListIter") else W))
             self.env[var] = (lname(var), vty)
         self.loop = nxt
         saved_itermut = getattr(self, "itermut", {})
@@ -1974,7 +2033,7 @@ class Emitter:
                 return False
             if e and e[0] == "try":
                 # only `?` on an Option makes the enclosing function return a VALUE early; `?` on an io::Result is a fault
-                if not self.peek_ret_R(e[1]) and not self.is_load_call(e[1]):
+                if not self.peek_ret_R(e[1]) and not self.is_load_call(e[1]) and not self.cfg.get("err_as_fault"):
                     return True
             return any(walk(x) if isinstance(x, tuple) else (any(walk(y) for y in x) if isinstance(x, list) else False) for x in e[1:])
         return any(walk(st) for st in block[1]) or (block[2] is not None and walk(block[2]))
